@@ -3933,6 +3933,14 @@ fn eq<C: Cache>(
                 Ok(EqResult::Bool(false))
             } else if center.is_empty() {
                 Ok(EqResult::Bool(true))
+            } else if center.values().any(|(field1, field2)| {
+                // An optional field without a definition is ignored, as in the left and right
+                // parts above: facing a defined field, it makes the records different (as `{}`
+                // and `{a = 1}` are) instead of raising a missing definition error.
+                (field1.is_empty_optional() && field2.value.is_some())
+                    || (field2.is_empty_optional() && field1.value.is_some())
+            }) {
+                Ok(EqResult::Bool(false))
             } else {
                 // We consider undefined values to be equal. We filter out pairs of undefined
                 // values, but we reject pairs where one of the value is undefined and not the
